@@ -93,6 +93,7 @@ class RelativeSequence(AbstractSequence):
 
         """
         open_messages = dict()
+        open_positions = dict()
         messages_normalized = []
         wait_buffer = 0
 
@@ -130,6 +131,7 @@ class RelativeSequence(AbstractSequence):
                     # Skip message if note not yet closed
                     if len(note_list) != 0:
                         continue
+                    open_positions.pop((msg.channel, msg.note), None)
                 # Remove double time signatures
                 elif msg.message_type == MessageType.TIME_SIGNATURE:
                     if msg.numerator != current_ts_numerator or msg.denominator != current_ts_denominator:
@@ -149,6 +151,10 @@ class RelativeSequence(AbstractSequence):
                         Message(message_type=MessageType.WAIT, channel=msg.channel, time=wait_buffer))
                     wait_buffer = 0
 
+                # Remember where a note was opened (the same message object can occur several times in a sequence)
+                if msg.message_type == MessageType.NOTE_ON:
+                    open_positions[(msg.channel, msg.note)] = len(messages_normalized)
+
                 messages_normalized.append(msg)
 
         # Repeat procedure for wait messages that occur at the end of the sequence
@@ -157,12 +163,8 @@ class RelativeSequence(AbstractSequence):
                 Message(message_type=MessageType.WAIT, channel=default_channel, time=wait_buffer))
 
         # Remove unclosed notes
-        for channel in open_messages.keys():
-            for key in open_messages[channel].keys():
-                note_list = open_messages[channel].get(key, [])
-                for msg in note_list:
-                    if msg in messages_normalized:
-                        messages_normalized.remove(msg)
+        for position in sorted(open_positions.values(), reverse=True):
+            del messages_normalized[position]
 
         self._messages = messages_normalized
 
